@@ -1,7 +1,7 @@
 import IncrVerif.Proofs.PerKeyH88
 import IncrVerif.Proofs.PerKey
 /-!
-# Per-key operators, API actions part 7: `create (.perKey none fam (.outer k))`, the run
+# Per-key operators, API actions part 7: `create (.perKey cut fam (.outer k))`, the run
 -/
 namespace IncrVerif.Proofs.PerKeyH
 open IncrVerif.Engine IncrVerif.Driver IncrVerif.Proofs IncrVerif.Proofs.Step IncrVerif.Proofs.Sched
@@ -12,12 +12,17 @@ def pkNewRec (s : State) : ExpertRec :=
   { f := 0, pk := some (s.perkeys.size, none), node := s.nodes.size + 1,
     children := [{ dep := s.nextDep, child := s.nodes.size + 2, cb := none }], forceStale := true }
 
-/-- the record of a fresh operator -/
-def pkNewOp (fam : Nat) (s : State) : PerKeyRec :=
-  { fam := fam, cut := none, result := s.nodes.size + 1, lhsChange := s.nodes.size + 2 }
+/-- a family together with the cutoff argument of the operator (`incr_mapi_` / `incr_mapi_cutoff`) -/
+structure FamCut where
+  fam : Nat
+  cut : Option CutoffK
 
-/-- the state after `create (.perKey none fam x)` at top level, `x` resolving to `a0` -/
-def pkCreated (fam a0 : Nat) (s : State) : State :=
+/-- the record of a fresh operator -/
+def pkNewOp (fam : FamCut) (s : State) : PerKeyRec :=
+  { fam := fam.fam, cut := fam.cut, result := s.nodes.size + 1, lhsChange := s.nodes.size + 2 }
+
+/-- the state after `create (.perKey cut fam x)` (`fam : FamCut` = family + cutoff argument) at top level, `x` resolving to `a0` -/
+def pkCreated (fam : FamCut) (a0 : Nat) (s : State) : State :=
   { s with
     counters := { s.counters with created := s.counters.created + 1 + 1 + 1 + 1 },
     nodes := (((s.nodes.push { kind := .map fnIdent [a0], createdIn := .top }).push
@@ -31,9 +36,9 @@ def pkCreated (fam a0 : Nat) (s : State) : State :=
     top := s.top.push (s.nodes.size + 3),
     handles := (s.nodes.size + 3) :: s.handles }
 
-theorem perKey_create_run (env : Env) (fam k a0 : Nat) (tk : Array Nat) (s : State) (hsc : s.currentScope = .top)
+theorem perKey_create_run (env : Env) (fam : FamCut) (k a0 : Nat) (tk : Array Nat) (s : State) (hsc : s.currentScope = .top)
     (hk : s.top[k]? = some a0) :
-    ∃ str, (stepAction env (.create (.perKey none fam (.outer k))) tk).run.run s = (.ok (str, tk), pkCreated fam a0 s) := by
+    ∃ str, (stepAction env (.create (.perKey fam.cut fam.fam (.outer k))) tk).run.run s = (.ok (str, tk), pkCreated fam a0 s) := by
   simp only [stepAction, elabInstrM, elabInstr, resolveOpnd, createNode, bumpCounter, modExpert, bind_assoc, run_bind_get,
     run_bind_modify, hsc, hk, pure_bind, run_pure, map_eq_pure_bind, Array.size_push]
   refine ⟨toString "ok #" ++ toString (s.nodes.size + 1 + 1 + 1), ?_⟩
@@ -41,9 +46,9 @@ theorem perKey_create_run (env : Env) (fam k a0 : Nat) (tk : Array Nat) (s : Sta
   rfl
 
 
-theorem perKey_create_inv {env : Env} {fam k a0 : Nat} {tk : Array Nat} {s s' : State} {r : String × Array Nat}
+theorem perKey_create_inv {env : Env} {fam : FamCut} {k a0 : Nat} {tk : Array Nat} {s s' : State} {r : String × Array Nat}
     (hsc : s.currentScope = .top) (hk : s.top[k]? = some a0)
-    (h : (stepAction env (.create (.perKey none fam (.outer k))) tk).run.run s = (.ok r, s')) :
+    (h : (stepAction env (.create (.perKey fam.cut fam.fam (.outer k))) tk).run.run s = (.ok r, s')) :
     s' = pkCreated fam a0 s := by
   obtain ⟨str, h'⟩ := perKey_create_run env fam k a0 tk s hsc hk
   rw [h'] at h
@@ -52,7 +57,7 @@ theorem perKey_create_inv {env : Env} {fam k a0 : Nat} {tk : Array Nat} {s s' : 
 /-! ## field lemmas of `pkCreated` -/
 
 section
-variable (fam a0 : Nat) (s : State)
+variable (fam : FamCut) (a0 : Nat) (s : State)
 
 theorem pkc_nodes : (pkCreated fam a0 s).nodes =
     (((s.nodes.push { kind := .map fnIdent [a0], createdIn := .top }).push
